@@ -44,9 +44,12 @@ SenseKinds  == {"STTA2", "STTA4", "STTADEP", "STTA1", "STTA0", "STTA212"} \cup S
 LfKinds     == {"LF212", "LF424"}
 LdepKinds   == {"LDEPA", "LDEPF", "LDEPACT"}
 ListenKinds == {"LA2", "LA4", "LA4D", "LADEP", "LA212", "LB106"} \cup LfKinds \cup LdepKinds
-OpKinds     == SenseKinds \cup ListenKinds
+\* the frontend is closed by another thread while exchange() / sense() / listen() waits for the frontend lock
+\* ("device gone" seen at the frontend): no host command at all, the documented answer is IOError(ENODEV)
+CloseKinds  == {"XCLOSE", "SCLOSE", "LCLOSE"}
+OpKinds     == SenseKinds \cup ListenKinds \cup CloseKinds
 Mode(k) == IF k \in TargetKinds THEN "target" ELSE IF k \in SenseKinds THEN "sense"
-           ELSE IF k \in ListenKinds THEN "listen" ELSE "initiator"
+           ELSE IF k \in ListenKinds THEN "listen" ELSE IF k \in CloseKinds THEN "closed" ELSE "initiator"
 
 ExKinds(d) ==
   CASE d = "pn531"  -> (InitKinds \ {"TT1", "TT1CIU", "TT4B"}) \cup TargetKinds
@@ -96,7 +99,8 @@ Mute(d) == IF d = "rcs956" THEN <<"ResetMode", "RFConfiguration">> ELSE IF d = "
 
 \* the documented result of the fault-free operation (nfc/clf/device.py, nfc/clf/__init__.py sense/listen)
 Expect(d, k) ==
-  IF d \in Pn53xFam THEN
+  IF k \in CloseKinds THEN "IOErr"
+  ELSE IF d \in Pn53xFam THEN
        CASE k \in {"STTA2", "STTA4", "STTADEP"} \cup SttfKinds \cup SdepKinds -> "Target"
          [] k = "STTA1" -> IF HasT1(d) THEN "Target" ELSE "NoTarget"
          [] k = "STTA0" -> "NoTarget"
@@ -174,7 +178,7 @@ UdpOpCmds(k) ==
     [] k = "LDEPA" -> <<"bind">> \o rs \o rs \o rs \o rs \o <<"recvfrom">>
     [] k = "LDEPF" -> <<"bind">> \o rs \o rs \o rs \o <<"recvfrom">>
 
-OpCmds(d, k) == IF d \in Pn53xFam THEN Pn53xOpCmds(d, k) ELSE IF d = "rcs380" THEN Rcs380OpCmds(k) ELSE UdpOpCmds(k)
+OpCmds(d, k) == IF k \in CloseKinds THEN <<>> ELSE IF d \in Pn53xFam THEN Pn53xOpCmds(d, k) ELSE IF d = "rcs380" THEN Rcs380OpCmds(k) ELSE UdpOpCmds(k)
 
 Cmds(d, k) == IF k \in OpKinds THEN OpCmds(d, k) ELSE ExCmds(d, k)
 NCmd(d, k) == Len(Cmds(d, k))
@@ -300,7 +304,11 @@ Benign(d, k, at, f) ==
   \/ k \in OpKinds /\ f.k \in {"ChipStatus", "CommStatus"} /\ f.v = 0
   \/ k \in OpKinds /\ f.k = "NbTg" /\ f.v = 1
 
-\* sense()/listen() with one fault at host command `at`
+\* sense()/listen() with one fault at host command `at`.  The table is the documented contract; the code meets it
+\* after proposed_fixes/C13-4 (pn53x family: Chipset.Error -> IOError, listen_ttf empty FIFO), C13-5 (rcs380:
+\* StatusError / missing response -> IOError), C13-6 (udp: listen_* return None instead of raising communication
+\* errors) and C13-7 (Expect = "Unsupported" for a bit rate the PN53x can not do; the code raises ValueError) --
+\* until then the deviations are listed in known_findings.json.
 OpAllowed(d, k, at, f) ==
   LET c == Cmds(d, k)[at]
       exp == Expect(d, k)
